@@ -9,6 +9,8 @@ def jsonable(v):
         return v
     if isinstance(v, int):
         return v
+    if isinstance(v, complex):
+        return [jsonable(v.real), jsonable(v.imag)]
     if isinstance(v, float):
         return str(Fraction(v)) if v == v and v not in (float('inf'), float('-inf')) else repr(v)
     if isinstance(v, (bytes, bytearray)):
